@@ -53,6 +53,12 @@ def cli_check(formulas, timeout_ms):
             os.unlink(path)
         except OSError:
             pass
+    if os.environ.get('VERIF_DEBUG_CHECK') and out not in ('sat', 'unsat'):
+        import shutil
+        import sys
+        print('cli_check:', repr(out[:200]), file=sys.stderr)
+        with open(os.path.join(d, 'debug_check.smt2'), 'w') as f:
+            f.write(text)
     return out if out in ('sat', 'unsat') else 'unknown'
 AXIOMATIZER = [None]
 STATS = {'entail_calls': 0, 'entail_time': 0.0}
